@@ -1,7 +1,9 @@
 //go:build verif
 
 // gluetr: re-emits Lean definitions over `List UInt8` from tink-go's current source for a restricted
-// BYTE fragment (small glue functions: output prefixes, nonces, length blocks, masks, label strings).
+// BYTE fragment: small glue functions (output prefixes, nonces, length blocks, masks, label strings) and — since
+// round 3b — WHOLE functions of the byte-level / arithmetical core (CMAC, CTR and EtM framing, AES-SIV, AES-KWP, the
+// streaming segment state machines, the record/replay reader, keyset validation, randomness draws).
 // It is the byte-level sibling of go/harness/translator (integers only) and, like it, refuses what
 // it does not know instead of guessing.  Run with cwd=/repo:
 //
@@ -14,20 +16,44 @@
 //   values     byte → UInt8, other unsigned ints → Nat (explicit `% 2^w`), signed ints → Int (explicit
 //              two's-complement wrap GoSem.i64/i32), bool → Bool, []byte / [n]byte / string → Bytes
 //   allocation make([]byte, n[, c]), var b [n]byte, []byte{consts}, []byte("…"), string(b)
-//   stores     b[i] = e, b[i] op= e, copy(dst, src), binary.{Big,Little}Endian.PutUint16/32/64(dst, v),
-//              subtle.XORBytes(dst, x, y)  with dst = v | v[:] | v[lo:] | v[:hi] | v[lo:hi] over a VARIABLE v
-//   reads      b[i], b[lo:hi], len, binary.*.Uint16/32/64, append(a, b...), append(a, x, y),
-//              slices.Concat, binary.*.AppendUint16/32/64, bytes.Clone, slices.Clone
-//   control    if (fall-through branches are joined variable by variable), `if cond { return …, err }`
-//              guards (→ Option), switch on an integer tag with returning clauses,
-//              `x, err := f(…); if err != nil { return …, err }` (→ Option.bind) for translated or declared-opaque f,
-//              `for i := 0; i < N; i++` with loop-invariant N and a body in the fragment (→ GoSem.forRange)
+//   stores     b[i] = e, b[i] op= e, copy(dst, src) (also `n := copy(…)`), binary.{Big,Little}Endian.PutUint16/32/64(dst, v),
+//              subtle.XORBytes(dst, x, y)  with dst = v | v[:] | v[lo:] | v[:hi] | v[lo:hi] over a variable or field path v
+//   reads      b[i], b[lo:hi], len, min, max, binary.*.Uint16/32/64, append(a, b...), append(a, x, y),
+//              slices.Concat, binary.*.AppendUint16/32/64, bytes.Clone, slices.Clone, bytes.Equal, slices.Equal,
+//              subtle.ConstantTimeCompare / Select / Eq / LessOrEq
+//   control    if (also `if init; cond`; fall-through branches are joined variable by variable unless one can leave the
+//              function, then the rest is translated per branch), `if cond { return …, err }` guards (→ Option),
+//              switch on an integer tag with returning clauses,
+//              `x, err := f(…); if err != nil { return …, err }` (→ Option.bind; `panic(err)` → poison),
+//              `for i := 0; i < N; i++` with a plain body (→ GoSem.forRange); every other loop — other bounds, downward,
+//              `for cond`, `for {}`, `for i, x := range list`, bodies with return / break / continue — via GoSem.Step
+//              (loops.go; while loops get the parameter `fuel`)
 //   struct reads  p.f.g on a parameter / receiver become parameters `p_f_g` of the Lean definition
+//   locals of struct type (x := &T{…}): their fields of a supported type are locations x.f; a struct value is the tuple of them
+//   slice variables that share memory and are written through (iv := dst[:n]; it = it[8:]) are VIEWS (views.go)
+//   calls      earlier functions / methods of the unit (implicit parameters are passed on by name), procedures (value = the
+//              written slice parameter; Option of it when the Go function returns only an error)
+//   abstraction of what is not tink-go's own code (each is a parameter of the Lean definition and a hypothesis of the ties):
+//     -opaque fn:callee=name          pure function (value[, error] → Option); variadic callees by call arity
+//     -block  fn:callee=E             cipher.Block.Encrypt/Decrypt(dst, src): one 16-byte block (GoSem.blockInto)
+//     -apply  fn:callee=F             length-preserving keyed store, cipher.Stream.XORKeyStream(dst, src) (GoSem.applyInto)
+//     -fill   fn:callee=rand          rand.Read(dst) / random.MustRand(dst): ONE draw per function (else refused)
+//     -inout  fn:callee=F             x, err := callee(dst, args…) writing and returning the window dst
+//     -abstract fn:callee             constructor of an object without a value (aes.NewCipher), assumed to succeed
+//     -ctor fn:callee=i, -repr T=Bytes  an abstract object represented by the argument it was built from (a cipher.Stream by its IV)
+//   -stateful fn  (stateful.go) methods that assign receiver fields / use external objects (-extern fn:callee=name@path:read|write|value):
+//              value = (fields', external states', written parameters', results…) at every return; errors are Nat codes (-errcodes)
+//   -record pkg.Type=paths (records.go) proto structs as Lean structures of the fields read (getters = fields), []*T = List T,
+//              map[K]bool used as a set = List K, slices.ContainsFunc = List.any
 //   regions    a contiguous run of statements of a function (anywhere, also inside a loop body or a
 //              closure), selected by two regular expressions that must each match exactly one statement;
-//              variables that flow in become parameters, the named variables flow out
+//              variables that flow in become parameters, the named variables flow out.  PREFER whole functions: a statement
+//              inserted outside the markers is invisible to a region.
+// Never silent: an unknown construct, a missing function / marker, a receiver field assigned outside -stateful, a written
+// slice parameter that no return hands back, several random draws under -fill … are errors (non-zero exit; check reports the
+// owner properties' tie as broken).
 // Assumptions written into the generated header: distinct slice parameters do not overlap; opaque
-// callees are pure; re-slicing beyond len (within cap) is treated as out of range.
+// callees are pure; re-slicing beyond len (within cap) is treated as out of range; distinct field paths are distinct memory.
 // Out-of-range stores / slices (Go: panic) yield the poison value `[]`, so a theorem that pins the
 // result to a non-empty model value also shows that no such panic happens on the stated domain.
 package main
@@ -73,6 +99,8 @@ type unit struct {
 	extern         map[string][]externOp
 	externKind     map[string]string // callee -> "read" | "write"
 	errcodes       map[string]int    // sentinel errors (printed form, e.g. io.EOF or ErrTooManySegments) -> code ≥ 2
+	abs            map[string]string   // -abs pkgpath.Type -> Lean type variable
+	mutate         map[string][]opq    // function -> calls X.m(args) that update the abstract object X
 	records        map[string][]string // -record pkg.Type -> field paths
 	repr           map[string]kind  // named types (pkgpath.Name) represented by a value of the given kind
 	regions        []regionSpec
@@ -122,6 +150,23 @@ func init() {
 	}
 }
 
+func (u *unit) absNames() []string {
+	var r []string
+	for _, n := range u.abs {
+		dup := false
+		for _, x := range r {
+			if x == n {
+				dup = true
+			}
+		}
+		if !dup {
+			r = append(r, n)
+		}
+	}
+	sort.Strings(r)
+	return r
+}
+
 func leanName(s string) string {
 	if reserved[s] {
 		return s + "'"
@@ -169,7 +214,7 @@ func main() {
 			cur = &unit{dir: v, opaque: map[string][]opq{}, block: map[string][]opq{}, abstract: map[string][]string{},
 				apply: map[string][]opq{}, fill: map[string][]opq{}, ctor: map[string][]opq{}, repr: map[string]kind{}, inout: map[string][]opq{},
 				emitted: map[string]bool{}, procs: map[string]int{}, sigs: map[string]*fsig{},
-				records: map[string][]string{}, stateful: map[string]bool{}, extern: map[string][]externOp{}, externKind: map[string]string{}, errcodes: map[string]int{}}
+				abs: map[string]string{}, mutate: map[string][]opq{}, records: map[string][]string{}, stateful: map[string]bool{}, extern: map[string][]externOp{}, externKind: map[string]string{}, errcodes: map[string]int{}}
 			cur.sub = strings.Title(filepath.Base(v))
 			t.units = append(t.units, cur)
 		case "-sub":
@@ -211,6 +256,19 @@ func main() {
 				die("bad -repr %q", v)
 			}
 			cur.repr[ty] = kk
+		case "-abs": // pkgpath.Type=S_name
+			ty, nm, ok := strings.Cut(v, "=")
+			if !ok {
+				die("bad -abs %q", v)
+			}
+			cur.abs[ty] = nm
+		case "-mutate": // fn:callee=name
+			fn, rest, ok := strings.Cut(v, ":")
+			callee, name, ok2 := strings.Cut(rest, "=")
+			if !ok || !ok2 {
+				die("bad -mutate %q", v)
+			}
+			cur.mutate[fn] = append(cur.mutate[fn], opq{callee, name})
 		case "-record": // pkgname.Type=path,path.sub,…
 			ty, paths, ok := strings.Cut(v, "=")
 			if !ok {
@@ -276,6 +334,7 @@ func main() {
 	for _, u := range t.units {
 		t.u = u
 		reprKinds = u.repr
+		absTypes = u.abs
 		for k, v := range u.records {
 			recordSpecs[k] = v
 		}
